@@ -2033,3 +2033,75 @@ def interpreted_reported_observables(repo):
                                 if bad_from_in else " (wrong spin block / orbital count / sign)"))
                 out.append((case, not msg, msg))
     return out
+
+
+# ------------------------------------------------------------------------------------------------------------------------------------------------
+# C08-R1 / C12-R2: one velocity-Verlet step (plain and with the Langevin O half-steps), decided by value as polynomial identities
+# ------------------------------------------------------------------------------------------------------------------------------------------------
+def interpreted_verlet_step(repo):
+    """one_step of Molecular_Dynamics_Basic and of Molecular_Dynamics_Langevin is interpreted (sa.npsym) on symbolic positions, velocities, accelerations, inverse masses and
+    time step for a padded batch (two molecules x two atoms).  The electronic-structure driver is a stand-in that records the coordinates it is called with and publishes a new
+    symbolic force; the thermostat half-step of the Langevin engine is a stand-in v <- c1 v + c2 xi_k with a fresh noise array per call.  Identities (exact, expanded):
+        x' = x + v~ dt + 1/2 a dt^2,  force evaluated once, at x',  a' = F' / m * ACC_SCALE,  v' = v~ + 1/2 (a + a') dt        (v~ = v, plain)
+        Langevin: v~ = c1 v + c2 xi_1 enters the Verlet step and the result is passed through v <- c1 v + c2 xi_2 (O - V - O, two noise draws)
+    Returns [(engine, ok, message)]."""
+    import numpy as np
+    import sympy as sp
+    from .loader import AnalysisError
+    from .npsym import Instance, NpSym, Raised
+    md = repo.mod("seqm/MolecularDynamics.py")
+    shape = (2, 2, 3)
+    sym = lambda tag: np.array([[[sp.Symbol(f"{tag}{m}{a}{c}") for c in range(3)] for a in range(2)] for m in range(2)], dtype=object)
+    dt, c1, c2 = sp.symbols("dt c1 c2")
+    ACC = sp.nsimplify(NpSym(repo).global_value(md, "CONSTANTS").ACC_SCALE)
+    out = []
+    for cls, thermostat in (("Molecular_Dynamics_Basic", False), ("Molecular_Dynamics_Langevin", True)):
+        if f"{cls}.one_step" not in md.functions:
+            continue
+        x, v, a, F = sym("x"), sym("v"), sym("a"), sym("F")
+        mi = np.array([[[sp.Symbol(f"w{m}{a_}")] for a_ in range(2)] for m in range(2)], dtype=object)
+        calls, noises = [], []
+        mol = types.SimpleNamespace(coordinates=x.copy(), velocities=v.copy(), acc=a.copy(), force=None, mass_inverse=mi.copy(), dm=None, cis_amplitudes=None,
+                                    const=types.SimpleNamespace(do_timing=False, timing={"MD": []}))
+
+        def driver(fr, molecule, *a_, **k):
+            calls.append(np.asarray(molecule.coordinates).copy())
+            molecule.force = F.copy()
+
+        def o_step(fr, molecule):
+            xi = sym(f"xi{len(noises) + 1}_")
+            noises.append(xi)
+            molecule.velocities[...] = c1 * molecule.velocities + c2 * xi
+        selfobj = Instance(md, cls, timestep=dt, esdriver=driver, langevin_c1=c1, langevin_c2=c2, damp=sp.Integer(50))
+        if thermostat:
+            selfobj._apply_langevin_thermostat = o_step
+        try:
+            NpSym(repo).call_function(md, md.func(f"{cls}.one_step"), [selfobj, mol])
+        except Raised as e:
+            out.append((cls, False, f"one_step raises: {str(e)[:100]}"))
+            continue
+        eq = lambda A, B: all(sp.expand(sp.sympify(p) - q) == 0 for p, q in zip(np.asarray(A).reshape(-1), np.asarray(B).reshape(-1)))
+        msg = ""
+        v0 = (c1 * v + c2 * noises[0]) if (thermostat and noises) else v
+        x_new = x + v0 * dt + a * dt ** 2 / 2
+        a_new = F * mi * ACC
+        v_mid = v0 + (a + a_new) * dt / 2
+        if thermostat and len(noises) != 2:
+            msg = f"the thermostat half-step is applied {len(noises)} time(s) in one step; the scheme applies it before and after the Verlet step (two independent noise draws)"
+        elif len(calls) != 1:
+            msg = f"the forces are evaluated {len(calls)} times in one step"
+        elif not eq(calls[0], x_new):
+            msg = "the forces are not evaluated at the new positions x + v dt + 1/2 a dt^2 (drift and force evaluation out of order, or wrong half-kick before the drift)"
+        elif not eq(mol.coordinates, x_new):
+            msg = "the positions after the step are not x + v dt + 1/2 a dt^2"
+        elif not eq(mol.acc, a_new):
+            msg = "the acceleration after the step is not F(x') / m * ACC_SCALE"
+        else:
+            v_new = (c1 * v_mid + c2 * noises[1]) if thermostat else v_mid
+            if not eq(mol.velocities, v_new):
+                msg = ("the velocities after the step are not v + 1/2 (a + a') dt" if not thermostat else
+                       "the velocities after the step are not O(V(O(v))): thermostat half-step, velocity-Verlet step with both half-kicks, thermostat half-step")
+        out.append((cls, not msg, msg))
+    if not out:
+        raise AnalysisError("no one_step implementation found")
+    return out
